@@ -479,3 +479,17 @@ def c18(run):
     validate_trace(run, "CelDataTrace", path, nontrivial=lambda c: c["a"]["t"] in ("list", "map", "bytes", "ts", "dur"),
                    sample_key=lambda c: {"value": c["a"], "out": c["out"]},
                    what="JSON export: panic, wrong document, wrong error, or import(export(v)) != v")
+
+
+@check("C13")
+def c13(run):
+    run.rule = ("model: CelNumLitMC -- laws of the literal/conversion definitions on a boundary set (range checks, truncation, decimal<->binary rounding interval); "
+                "impl->spec: every boundary int/uint (0, +-1, +-2^31, +-2^53+-1, limits and neighbours) and random 64-bit patterns as decimal, hex, signed, u-suffixed and double "
+                "literals, boundary and random doubles in several spellings, out-of-range and malformed literals: ints/uints must evaluate exactly, doubles to a correctly "
+                "rounded value (decided by exact decimal/binary comparison), out-of-range literals must be compile errors; int()/uint()/double() on every boundary argument "
+                "(NaN, +-inf, subnormals, -0.0, +-2^63, 2^64 and neighbouring doubles, numeric strings); string() followed by the inverse conversion; non-trivial = every record")
+    model_check(run, "CelNumLitMC", workers=8)
+    run.exhaustive = True
+    path = drive_ops(run, "c13")
+    validate_trace(run, "CelOpTrace", path, sample_key=op_sample, nontrivial=lambda c: True,
+                   what="numeric literal / conversion: value differs from the number denoted, or an out-of-range case was not rejected")
